@@ -141,7 +141,10 @@ Section WithPrune.
   (* the Prune used: [prune] (repaired) or [prune_prefix] (pinned) *)
   Variable prune_fn : btree -> N -> btree * list N.
 
-  Definition set_finalised_with (st : bstate) (h round setid : N) : bstate * outcome unit :=
+  (* SetFinalisedHash from handleFinalisedBlock on, as pinned: the set id is only compared in
+     setHighestRoundAndSetID, AFTER handleFinalisedBlock has written and after the
+     finalised-hash key has been put *)
+  Definition set_finalised_late_with (st : bstate) (h round setid : N) : bstate * outcome unit :=
     if negb (has_header st h) then (st, Err e_unknown)
     else
       match handle_finalised st h with
@@ -170,10 +173,20 @@ Section WithPrune.
           end
       | (st1, r) => (st1, r)
       end.
+
+  (* SetFinalisedHash after fixes/C17-setid-check-before-write.patch: HasHeader, then the set id
+     is compared with the highest recorded one BEFORE anything is written, then the pinned body
+     (whose own comparison in setHighestRoundAndSetID can no longer fail) *)
+  Definition set_finalised_with (st : bstate) (h round setid : N) : bstate * outcome unit :=
+    if negb (has_header st h) then (st, Err e_unknown)
+    else if setid <? snd (bs_highest st) then (st, Err e_setid)
+    else set_finalised_late_with st h round setid.
 End WithPrune.
 
 Definition set_finalised := set_finalised_with prune.
+(* the pinned orders: Prune before repo commit ba99ff841; set-id comparison after the writes *)
 Definition set_finalised_prefix := set_finalised_with prune_prefix.
+Definition set_finalised_late := set_finalised_late_with prune.
 
 (* NewBlockStateFromGenesis(header) followed by loading the genesis trie *)
 Definition genesis_state (g groot : N) : bstate :=
